@@ -60,6 +60,11 @@ add("C18", E2,
     "Trusted: the fold (insert on reach, remove on withdraw, PeerDown clears the peer) and the ground truth read through the table's own iterators; GR stale retention not in scope.",
     "runtime monitoring: concurrent stress with delay injection + offline history fold checker; TSan + Miri schedule exploration")
 
+add("C20", E2,
+    "Runtime monitor: real TableManager with the kernel crate's verification handle as kernel_handle; histories of insert / replace / remove / peer drop / GR stale + purge / soft_reset_in with import-policy changes / next-hop reachability reports over 3 peers sharing 3 next hops, IPv4 + IPv6 + VPNv4 imported into two VRFs; after every operation the drained request stream is folded: FIB replay per (table, prefix) must equal the next hops of the best path and the paths tied with it before the router-id step (own tie key), NHT registrations minus unregistrations per address must equal the peer-learned paths using it (never negative), and no path via an unreachable next hop may be eligible. Failing histories are delta-debugged.",
+    "Trusted: the fold of the request stream and the reference tie key; observation at the request channel, not Netlink; VRFs whose import targets do not match the current best are not judged. Sequential histories.",
+    "runtime monitoring: replay of the recorded request stream vs recount of the RIB after every step (conservation + equality invariants)")
+
 def main():
     props = [json.loads(l) for l in open(os.path.join(V, "properties.jsonl"))]
     old = json.load(open(os.path.join(V, "MANIFEST.json")))
